@@ -7,6 +7,7 @@ Touched nodes are rebuilt through the modelled constructors (`rebuild`, Model/Re
 `_ufl_expr_reconstruct_` does.  `none` = the Python raises.  Core Lean only.
 -/
 import UflVerif.Model.Replace
+import UflVerif.Model.Eval
 
 namespace UflVerif
 namespace Expr
@@ -74,6 +75,229 @@ end
 
 /-- `renumber_indices` on an expression -/
 def renumber (e : Expr) : Option Expr := renameRebuild (newNumber (firstSeen e [])) e
+
+/-! ## remove_component_tensors -/
+
+/-- index replacement map: index count ↦ Index or FixedIndex (`dict(zip(i2, i1))`) -/
+abbrev FiMap := List (Nat × Idx)
+
+def FiMap.get (fm : FiMap) (c : Nat) : Option Idx :=
+  match fm.find? (fun p => p.1 == c) with
+  | some p => some p.2
+  | none => none
+
+def FiMap.touches (fm : FiMap) (cs : List Nat) : Bool := cs.any fun c => (fm.get c).isSome
+
+/-- `unique_sorted_indices`: drop repeated ids of a list sorted by id; `none` if a repeated id carries another extent -/
+def uniqueSorted : List (Nat × Nat) → Option (List (Nat × Nat))
+  | [] => some []
+  | [p] => some [p]
+  | p :: q :: rest =>
+    if p.1 == q.1 then (if p.2 == q.2 then uniqueSorted (p :: rest) else none)
+    else (uniqueSorted (q :: rest)).map (p :: ·)
+termination_by l => l.length
+
+/-- insertion sort of (id, extent) pairs (Python sorts tuples lexicographically) -/
+def sortPairs (l : List (Nat × Nat)) : List (Nat × Nat) :=
+  l.foldl (fun acc p => ins p acc) []
+where
+  ins (p : Nat × Nat) : List (Nat × Nat) → List (Nat × Nat)
+    | [] => [p]
+    | q :: qs => if p.1 < q.1 || (p.1 == q.1 && p.2 ≤ q.2) then p :: q :: qs else q :: ins p qs
+
+/-- `IndexReplacer.zero` -/
+def replZero (fm : FiMap) (sh : List Nat) (f : FI) : Option Expr :=
+  if !fm.touches (f.map (·.1)) then some (.zero sh f)
+  else
+    let fi := f.filterMap fun p => match (fm.get p.1).getD (.free p.1) with
+      | .free c => some (c, p.2)
+      | .fixed _ => none
+    match uniqueSorted (sortPairs fi) with
+    | none => none
+    | some [] => some (.zero sh [])     -- every free index replaced by a fixed one (raised ValueError before the fix: commit)
+    | some fi' => some (.zero sh fi')
+
+def replMI (fm : FiMap) (is : List Idx) : List Idx :=
+  is.map fun i => match i with
+    | .free c => (fm.get c).getD (.free c)
+    | i => i
+
+mutual
+/-- `IndexReplacer` through map_expr_dag: replace indices in every multi-index and zero, rebuild touched nodes -/
+def replIdx (fm : FiMap) : Expr → Option Expr
+  | .mi is => some (.mi (replMI fm is))
+  | .zero sh f => replZero fm sh f
+  | .op k aux args =>
+    match replIdxL fm args with
+    | none => none
+    | some args' =>
+      if args'.any isUnsupported then some unsupported
+      else if beqL args' args then some (.op k aux args)
+      else rebuild k aux args'
+  | e => some e
+def replIdxL (fm : FiMap) : List Expr → Option (List Expr)
+  | [] => some []
+  | a :: as => match replIdx fm a, replIdxL fm as with
+    | some x, some xs => some (x :: xs)
+    | _, _ => none
+end
+
+mutual
+/-- counts of the indices bound by an IndexSum or a ComponentTensor somewhere inside the expression -/
+def boundCounts : Expr → List Nat
+  | .op k _ args =>
+    (match k, args with
+     | .indexSum, [_, .mi is] => freeCounts is
+     | .componentTensor, [_, .mi is] => freeCounts is
+     | _, _ => []) ++ boundCountsL args
+  | _ => []
+def boundCountsL : List Expr → List Nat
+  | [] => []
+  | a :: as => boundCounts a ++ boundCountsL as
+end
+
+mutual
+/-- `IndexRemover` through map_expr_dag (operands first).  `guard` = the check that the substitution
+    does not touch an index bound again inside the tensor body (present since the fix: commit; `false`
+    models the code before it). -/
+def rctWith (guard : Bool) : Expr → Option Expr
+  | .op k aux args =>
+    match rctWithL guard args with
+    | none => none
+    | some args' =>
+      if args'.any isUnsupported then some unsupported
+      else
+        match k, args' with
+        | .indexed, [.op .componentTensor _ [o2, .mi i2], .mi i1] =>
+          let touched := freeCounts i1 ++ freeCounts i2
+          if guard && touched.any (fun c => (boundCounts o2).contains c) then
+            (if beqL args' args then some (.op k aux args) else rebuild k aux args')
+          else if i2.length != i1.length then none
+          else replIdx ((freeCounts i2).zip i1) o2
+        | _, _ => if beqL args' args then some (.op k aux args) else rebuild k aux args'
+  | e => some e
+def rctWithL (guard : Bool) : List Expr → Option (List Expr)
+  | [] => some []
+  | a :: as => match rctWith guard a, rctWithL guard as with
+    | some x, some xs => some (x :: xs)
+    | _, _ => none
+end
+
+def rct : Expr → Option Expr := rctWith true
+def rctOld : Expr → Option Expr := rctWith false
+
+/-! ## expand_indices -/
+
+/-- index values assigned by the enclosing index sums / component tensors (latest binding first) -/
+abbrev IdxVals := List (Nat × Nat)
+
+def IdxVals.get (iv : IdxVals) (c : Nat) : Option Nat :=
+  match iv.find? (fun p => p.1 == c) with
+  | some p => some p.2
+  | none => none
+
+/-- `_multi_index_values`: fixed indices as they are, free indices looked up (KeyError = none) -/
+def miValues (iv : IdxVals) : List Idx → Option (List Nat)
+  | [] => some []
+  | .fixed v :: is => (miValues iv is).map (v :: ·)
+  | .free c :: is => match iv.get c, miValues iv is with
+    | some v, some vs => some (v :: vs)
+    | _, _ => none
+
+/-- push the bindings of a component tensor: `zip(indices, comp)`, later ones shadow earlier ones -/
+def bindVals (iv : IdxVals) : List Idx → List Nat → IdxVals
+  | .free c :: is, v :: vs => bindVals ((c, v) :: iv) is vs
+  | _ :: is, _ :: vs => bindVals iv is vs
+  | _, _ => iv
+
+def nth? {α : Type} : List α → Nat → Option α
+  | [], _ => none
+  | x :: _, 0 => some x
+  | _ :: xs, n + 1 => nth? xs n
+
+def isLiteral : Expr → Bool
+  | .int _ | .real _ _ | .cplx _ _ _ _ => true
+  | _ => false
+
+/-- `sum(ops)`: Python's `0 + ops[0] + ops[1] + ...` through `Sum` -/
+def sumOps : List Expr → Option Expr
+  | ops => ops.foldl (fun acc x => bindU acc (fun a => mkSum a x)) (some (.zero [] []))
+
+mutual
+/-- `IndexExpander.visit` with index values `iv` and current component `c` -/
+def expandI : Expr → IdxVals → List Nat → Option Expr
+  | .term d, _, c =>
+    if d.cls == "Label" then some (.term d)
+    else if d.shape.isEmpty then some (.term d)
+    else if d.shape.length != c.length then none
+    else mkIndexed (.term d) (c.map .fixed)
+  | .zero sh f, iv, c =>
+    if sh.length != c.length then none
+    else if f.any (fun p => (iv.get p.1).isNone) then none
+    else some (.zero [] [])
+  | .mi is, iv, _ => (miValues iv is).map (fun vs => .mi (vs.map .fixed))
+  | .op k aux args, iv, c =>
+    match k, args with
+    | .indexed, [A, .mi ii] =>
+      (match miValues iv ii with
+       | some comp => expandI A iv comp
+       | none => none)
+    | .indexSum, [a, .mi [.free j]] =>
+      (match allSome ((List.range (FI.dimOf j (fi a))).map (fun v => expandI a ((j, v) :: iv) c)) with
+       | some ops => sumOps ops
+       | none => none)
+    | .componentTensor, [a, .mi is] =>
+      if !(shape a).isEmpty then none
+      else if is.length != c.length then none
+      else expandI a (bindVals iv is c) []
+    | .listTensor, xs =>
+      (match c with
+       | c0 :: c1 => expandNth xs c0 iv c1
+       | [] => none)
+    | .conditional, [p, t, f] =>
+      if !(shape p).isEmpty then none
+      else
+        (match expandI p iv [], expandI t iv c, expandI f iv c with
+         | some p', some t', some f' =>
+           if isUnsupported p' || isUnsupported t' || isUnsupported f' then some unsupported
+           else if beq p' p && beq t' t && beq f' f then some (.op k aux args)
+           else mkConditional p' t' f'
+         | _, _, _ => none)
+    | .division, [a, b] =>
+      if !(shape a).isEmpty || !c.isEmpty || !(shape b).isEmpty then none
+      else
+        (match expandI a iv c, expandI b iv c with
+         | some a', some b' =>
+           if isUnsupported a' || isUnsupported b' then some unsupported
+           else if beq a' a && beq b' b then some (.op k aux args)
+           else mkDivision a' b'
+         | _, _ => none)
+    | .grad, [f] =>
+      (match gradChain f with
+       | some _ => if (shape (.op k aux args)).length != c.length then none else mkIndexed (.op k aux args) (c.map .fixed)
+       | none => none)
+    | .variable, [a, _] => expandI a iv c          -- visited through (no cache by label since the fix: commit)
+    | k0, as =>
+      (match expandL as iv c with
+       | none => none
+       | some args' =>
+         if args'.any isUnsupported then some unsupported
+         else if beqL args' as then some (.op k0 aux as)
+         else rebuild k0 aux args')
+  | e, _, c => if c.isEmpty then some e else none       -- scalar_value
+def expandNth : List Expr → Nat → IdxVals → List Nat → Option Expr
+  | [], _, _, _ => none
+  | x :: _, 0, iv, c => expandI x iv c
+  | _ :: xs, n + 1, iv, c => expandNth xs n iv c
+def expandL : List Expr → IdxVals → List Nat → Option (List Expr)
+  | [], _, _ => some []
+  | a :: as, iv, c => match expandI a iv c, expandL as iv c with
+    | some x, some xs => some (x :: xs)
+    | _, _ => none
+end
+
+/-- `expand_indices(e)` -/
+def expand (e : Expr) : Option Expr := expandI e [] []
 
 end Expr
 end UflVerif
